@@ -1,0 +1,97 @@
+//! Verification hook (only compiled with `--cfg libp2p_verif`): public paths to the peer
+//! iterators of the query module. `ClosestPeersIter` is re-exported as is; the crate-private
+//! `ClosestDisjointPeersIter` and `FixedPeersIter` get thin forwarding wrappers.
+
+use std::num::NonZeroUsize;
+
+use libp2p_identity::PeerId;
+use web_time::Instant;
+
+pub use super::peers::{
+    PeersIterState,
+    closest::{ClosestPeersIter, ClosestPeersIterConfig},
+};
+use super::peers::{closest::disjoint::ClosestDisjointPeersIter, fixed::FixedPeersIter};
+use crate::kbucket::{Key, KeyBytes};
+
+/// Owned rendering of `PeersIterState`.
+#[derive(Debug, Clone, PartialEq, Eq)]
+pub enum Next {
+    Peer(PeerId),
+    WaitingNone,
+    AtCapacity,
+    Finished,
+}
+
+impl From<PeersIterState<'_>> for Next {
+    fn from(s: PeersIterState<'_>) -> Next {
+        match s {
+            PeersIterState::Waiting(Some(p)) => Next::Peer(p.into_owned()),
+            PeersIterState::Waiting(None) => Next::WaitingNone,
+            PeersIterState::WaitingAtCapacity => Next::AtCapacity,
+            PeersIterState::Finished => Next::Finished,
+        }
+    }
+}
+
+/// `FixedPeersIter`
+pub struct Fixed(FixedPeersIter);
+
+impl Fixed {
+    pub fn new(peers: Vec<PeerId>, parallelism: NonZeroUsize) -> Self {
+        Fixed(FixedPeersIter::new(peers, parallelism))
+    }
+    pub fn next(&mut self) -> Next {
+        self.0.next().into()
+    }
+    pub fn on_success(&mut self, peer: &PeerId) -> bool {
+        self.0.on_success(peer)
+    }
+    pub fn on_failure(&mut self, peer: &PeerId) -> bool {
+        self.0.on_failure(peer)
+    }
+    pub fn finish(&mut self) {
+        self.0.finish()
+    }
+    pub fn is_finished(&self) -> bool {
+        self.0.is_finished()
+    }
+    pub fn into_result(self) -> Vec<PeerId> {
+        self.0.into_result().collect()
+    }
+}
+
+/// `ClosestDisjointPeersIter`
+pub struct Disjoint(ClosestDisjointPeersIter);
+
+impl Disjoint {
+    pub fn with_config(
+        config: ClosestPeersIterConfig,
+        target: KeyBytes,
+        known_closest_peers: Vec<Key<PeerId>>,
+    ) -> Self {
+        Disjoint(ClosestDisjointPeersIter::with_config(
+            config,
+            target,
+            known_closest_peers,
+        ))
+    }
+    pub fn next(&mut self, now: Instant) -> Next {
+        self.0.next(now).into()
+    }
+    pub fn on_success(&mut self, peer: &PeerId, closer_peers: Vec<PeerId>) -> bool {
+        self.0.on_success(peer, closer_peers)
+    }
+    pub fn on_failure(&mut self, peer: &PeerId) -> bool {
+        self.0.on_failure(peer)
+    }
+    pub fn finish(&mut self) {
+        self.0.finish()
+    }
+    pub fn is_finished(&self) -> bool {
+        self.0.is_finished()
+    }
+    pub fn into_result(self) -> Vec<PeerId> {
+        self.0.into_result().collect()
+    }
+}
